@@ -28,11 +28,17 @@ type awsCase struct {
 	cfg  cloudprovider.NodeGroupConfig
 }
 
-func newAWSCase(min, desired, max int64, cfg cloudprovider.NodeGroupConfig, zones string) (*awsCase, error) {
+func newAWSCase(min, desired, max int64, cfg cloudprovider.NodeGroupConfig, zones string, instances ...int64) (*awsCase, error) {
 	j := sim.NewJournal()
 	a := sim.NewAWS(j)
 	g := a.AddASG(cfg.GroupID, min, max, desired, zones)
-	for i := int64(0); i < desired; i++ {
+	// the instance list may differ from the desired capacity (instances still launching, or
+	// lingering while they terminate)
+	count := desired
+	if len(instances) > 0 && instances[0] >= 0 {
+		count = instances[0]
+	}
+	for i := int64(0); i < count; i++ {
 		a.NewInstance(g.Name)
 	}
 	p, err := awsprov.VerifNewCloudProvider(a.AutoScaling(), a.EC2(), cfg)
@@ -118,7 +124,11 @@ func TestC17(t *testing.T) {
 				dClass = rapid.SampledFrom([]string{"-1", "0", "1", "head-1", "head", "head+1", "large"}).Draw(rt, "dClass")
 				d = map[string]int64{"-1": -1, "0": 0, "1": 1, "head-1": head - 1, "head": head, "head+1": head + 1, "large": head + 1000}[dClass]
 			}
-			c, err := newAWSCase(min, desired, max, cfg, zones)
+			instDelta := int64(rapid.SampledFrom([]int{0, 0, 0, -3, -1, 1, 2, 5}).Draw(rt, "instancesMinusDesired"))
+			if desired+instDelta < 0 {
+				instDelta = -desired
+			}
+			c, err := newAWSCase(min, desired, max, cfg, zones, desired+instDelta)
 			if err != nil {
 				rt.Fatalf("harness: %v", err)
 			}
@@ -140,7 +150,7 @@ func TestC17(t *testing.T) {
 			dump := dumpPath()
 			desc := func() string {
 				var b strings.Builder
-				fmt.Fprintf(&b, "IncreaseSize(%d) on asg(min=%d cachedDesired=%d max=%d) fleet=%v cfg=%+v stale=%v -> err=%v\n", d, min, desired, max, fleet, cfg.AWSConfig, stale, err)
+				fmt.Fprintf(&b, "IncreaseSize(%d) on asg(min=%d cachedDesired=%d max=%d instances=%d) fleet=%v cfg=%+v stale=%v -> err=%v\n", d, min, desired, max, desired+instDelta, fleet, cfg.AWSConfig, stale, err)
 				for _, e := range es {
 					fmt.Fprintf(&b, "  %s\n", e.String())
 				}
@@ -154,7 +164,7 @@ func TestC17(t *testing.T) {
 				if len(ws) > 0 {
 					fail(rt, dump, "C17:write-on-rejected-delta", "%s", desc())
 				}
-				col.Nontrivial(fmt.Sprintf("rej|fleet=%v|%s", fleet, dClass))
+				col.Nontrivial(fmt.Sprintf("rej|fleet=%v|%s|inst=%d", fleet, dClass, instDelta))
 				return
 			}
 			if !fleet {
@@ -171,8 +181,8 @@ func TestC17(t *testing.T) {
 				if (err == nil) != w.OK() {
 					fail(rt, dump, "C17:result-mismatch", "cloud said %q but IncreaseSize returned %v\n%s", w.Err, err, desc())
 				}
-				if dClass == "1" || dClass == "head" || dClass == "head-1" || stale {
-					col.Nontrivial(fmt.Sprintf("plain|%s|stale=%v", dClass, stale))
+				if dClass == "1" || dClass == "head" || dClass == "head-1" || stale || instDelta != 0 {
+					col.Nontrivial(fmt.Sprintf("plain|%s|stale=%v|inst=%d", dClass, stale, instDelta))
 				}
 				return
 			}
@@ -502,7 +512,8 @@ func TestC19Direct(t *testing.T) {
 			min := int64(rapid.IntRange(0, 4).Draw(rt, "min"))
 			desired := min + int64(rapid.IntRange(0, 8).Draw(rt, "gap"))
 			cfg := cloudprovider.NodeGroupConfig{Name: "grp", GroupID: "asg-x"}
-			c, herr := newAWSCase(min, desired, desired+5, cfg, "subnet-a")
+			lingering := int64(rapid.SampledFrom([]int{0, 0, 0, 1, 2, 4}).Draw(rt, "lingeringInstances"))
+			c, herr := newAWSCase(min, desired, desired+5, cfg, "subnet-a", desired+lingering)
 			if herr != nil {
 				rt.Fatalf("harness: %v", herr)
 			}
@@ -554,7 +565,7 @@ func TestC19Direct(t *testing.T) {
 			col.Eval(1)
 			desc := func() string {
 				var b strings.Builder
-				fmt.Fprintf(&b, "DeleteNodes(%v) kinds=%v on asg(min=%d cachedDesired=%d) failNth=%d stale=%v -> err=%v (%T)\n", nodeNames(nodes), kinds, min, desired, failNth, stale, err, err)
+				fmt.Fprintf(&b, "DeleteNodes(%v) kinds=%v on asg(min=%d cachedDesired=%d instances=%d) failNth=%d stale=%v -> err=%v (%T)\n", nodeNames(nodes), kinds, min, desired, desired+lingering, failNth, stale, err, err)
 				for _, e := range es {
 					fmt.Fprintf(&b, "  %s\n", e.String())
 				}
@@ -653,7 +664,7 @@ func TestC19Direct(t *testing.T) {
 				}
 			}
 			if (n >= 2 && (firstBad > 0 || (failNth > 0 && failNth < n))) || refused && n > 0 || stale {
-				col.Nontrivial(fmt.Sprintf("del|n=%d|firstBad=%d|fail=%d|refused=%v|stale=%v|typed=%v", n, firstBad, failNth, refused, stale, typed))
+				col.Nontrivial(fmt.Sprintf("del|n=%d|firstBad=%d|fail=%d|refused=%v|stale=%v|typed=%v|linger=%d", n, firstBad, failNth, refused, stale, typed, lingering))
 				col.Sample(strings.Split(desc(), "\n"))
 			}
 		})
